@@ -125,6 +125,15 @@ fn prim(op: &str, m: &Kv, regs: &Regs) -> Result<String, String> {
                 return Err("key len".into());
             }
             k.copy_from_slice(&key);
+            if m.contains_key("key0") {
+                // an earlier key on the same object: set() must replace it completely
+                let k0 = b(m, "key0", regs)?;
+                if k0.len() == 32 {
+                    let mut kk = [0_u8; 32];
+                    kk.copy_from_slice(&k0);
+                    c.set(&kk);
+                }
+            }
             c.set(&k);
             match op {
                 "prim_enc" => {
